@@ -255,6 +255,9 @@ impl Store {
                         m.receipts
                             .insert(loc.to_vec(), (r.start_block(), r.user_signature().to_string(), r.signature().unwrap()));
                         m.slots = *slots;
+                        // fix (atomic transitions): an acknowledged appointment is no longer pending, nor invalid
+                        m.pending.remove(&loc.to_vec());
+                        m.invalid.remove(&loc.to_vec());
                     } else {
                         self.probe("store_duplicate_receipt");
                     }
@@ -273,7 +276,13 @@ impl Store {
                 let app = self.apps[*c as usize].clone();
                 wt.add_invalid_appointment(tid, &app);
                 if let Some(m) = self.model.get_mut(t) {
-                    m.invalid.insert(app.locator.to_vec());
+                    // an appointment the tower has acknowledged stays accepted whatever it says later
+                    if m.receipts.contains_key(&app.locator.to_vec()) {
+                        self.probe("store_invalid_after_accepted_ignored");
+                    } else if m.invalid.insert(app.locator.to_vec()) {
+                        // fix (atomic transitions): an appointment recorded as invalid is no longer pending
+                        m.pending.remove(&app.locator.to_vec());
+                    }
                 }
             }
             SOp::RemovePending { t, c } => {
